@@ -25,6 +25,12 @@ NA = {
 
 # property -> (category, technique, level text, level note, design ref)
 CLAIMED = {
+    "C06": ("model_checking", "symbolic execution of the real model vs element-liveness peak over guarded time steps, decided by z3 (bounded SMT)",
+            "Bounded SMT, single-Einsum mappings: for every memory the real run_model's usage formula (all inputs symbolic) is compared with the peak over time of the bits live under element liveness: reported >= peak and reported <= sum of whole tiles for all trip counts in [1,K]; reported == peak on unobstructed skeletons with trip counts in [3,K]; persistent tensors scale with n_instances; the capacity rejection is probed through the public API (size == reported accepted, size == peak-1 rejected).",
+            "The fused multi-Einsum clause (reservation merging in PmappingDataframe: pandas on float columns) is NOT decided. The model adds per-holder peaks; with 1-2 trip loops or a holder interposed between a holder and the relevant loops it streams through, it reports more than the element-liveness peak (never less) - equality is therefore claimed on the stated sub-domain only. MM/MV workloads, <=4/5 loops.", "4/C06"),
+    "C17": ("model_checking", "symbolic execution of the producer chain run_model -> _clean_energy_columns -> _apply_edp_columns for all 256 metric flag sets, decided by z3",
+            "SMT over unbounded symbols: for each of the 2^8 metric flag sets the real chain runs on symbols (object-dtype DataFrame); z3 shows EDP == (dynamic+leak)*latency, energy == dynamic+leak and the presence/absence of every total column, for all tile shapes and costs.",
+            "Only the fourth sentence of C17 (EDP column equals energy times latency) and the column bookkeeping; the three sentences about optima of different mapper runs are not decided (whole mapper runs).", "4/C17"),
     "C19": ("model_checking", "relational symbolic execution of the real model (parameters p vs k*p, n_instances symbolic), decided by z3",
             "SMT over unbounded symbols: the real run_model is executed symbolically with every energy/leak power replaced by k*p, every throughput by k*p, and n_instances by symbols; z3 shows every output column scales by the stated factor (k, 1/k, Nw*Ne, or 1) for all k>0, N>=1, tile shapes, rank bounds and costs, per mapping skeleton.",
             "Per-mapping statement; the optimum over mappings additionally needs a scale-independent exact search (C01, not applicable). Differences are normalised with sympy.expand and a Max/Min positive-factor pull-out before the query.", "4/C19"),
